@@ -97,6 +97,26 @@ pub fn check_derived(g: &G, alphabet: &Alphabet, deep: bool, c: &mut Counters, f
         let full_or_first_proper = mask == (1 << nq) - 1 || mask == 0b011 || mask == 0b001;
         check_result_graph("get_subgraph", &|| Some(g.get_subgraph(&s)), alphabet, deep && full_or_first_proper, fail);
     }
+    // ---- get_subgraph with name LISTS (repetition and order are part of a valid call)
+    for &x in &alphabet.names {
+        for &y in &alphabet.names {
+            for s in [vec![x, y, x], vec![y, x, x], vec![x, x]] {
+                let sub = g.get_subgraph(&s);
+                c.inc("derived_graphs");
+                c.inc("subgraph_lists_with_repeats");
+                let sb = Base::of(&sub);
+                let exp_nodes: Vec<(N, Option<A>)> = b.nodes.iter().filter(|n| s.contains(&n.0)).cloned().collect();
+                let mut exp_edges: Vec<SEdge> = canon_edges(&b).into_iter().filter(|e| s.contains(&e.0) && s.contains(&e.1)).collect();
+                exp_edges.sort();
+                if sb.nodes != exp_nodes {
+                    fail("subgraph_nodes", "Graph::get_subgraph", format!("get_subgraph({s:?}) nodes {:?}, expected {exp_nodes:?}", sb.nodes));
+                }
+                if canon_edges(&sb) != exp_edges {
+                    fail("subgraph_edges", "Graph::get_subgraph", format!("get_subgraph({s:?}) edges {:?}, expected {exp_edges:?}", canon_edges(&sb)));
+                }
+            }
+        }
+    }
     // ---- reverse
     match g.reverse() {
         Err(e) => {
